@@ -3,7 +3,7 @@
 //! zone-file loader, write interface, ZoneUpdater, Answer::to_message.
 //! Stub: the workload, the executable RFC reference lookup, the comparison.
 
-use super::zonestore::{apply_add, apply_del, build_direct, canon_rdata, note_nodes, owner_str, query_zone, rrset_of, soa_rdata, stored_name, universe_names, walk_zone, Ans, Content, RecSpec, APEX};
+use super::zonestore::{apply_add, apply_del, build_direct_offering_refused, canon_rdata, note_nodes, owner_str, query_zone, rrset_of, soa_rdata, stored_name, universe_names, walk_zone, Ans, Content, RecSpec, APEX};
 use crate::core::exec::step;
 use crate::core::runner::{Scenario, Tier};
 use crate::core::sim;
@@ -989,13 +989,16 @@ async fn run(_tier: Tier) {
         }
         sim::stat("probe.glue_bundle");
     }
-    let zone = match build_direct(&c) {
+    let zone = match build_direct_offering_refused(&c) {
         Ok(z) => z,
         Err(e) => {
             sim::harness_error(format!("initial zone does not build: {}", e));
             return;
         }
     };
+    if super::zonestore::LOADER_TOOK_AN_OFFER.with(|c| c.get()) {
+        return;
+    }
     let mut h = Hist::default();
     // Does this run send CNAME/NS records through the write interface
     // (known not to be honoured)? Most runs keep them to the builder path.
@@ -1086,13 +1089,16 @@ async fn run(_tier: Tier) {
             return;
         }
     }
-    let direct = match build_direct(&c) {
+    let direct = match build_direct_offering_refused(&c) {
         Ok(z) => z,
         Err(e) => {
             sim::harness_error(format!("final content does not build directly: {}", e));
             return;
         }
     };
+    if super::zonestore::LOADER_TOOK_AN_OFFER.with(|c| c.get()) {
+        return;
+    }
     let direct_reader = direct.read();
     let mut qnames: Vec<String> = all.clone();
     for n in &names {
